@@ -522,6 +522,99 @@ Proof.
   - now apply vp_holds_b_sound.
 Qed.
 
+(* ---------- the repaired consumer (F44): exact also with coincident samples ---------- *)
+
+Lemma drop_first_some : forall q l r, NoDup (map fst l) -> drop_first q l = Some r ->
+  In q (map fst l) /\ map fst r = remove Z.eq_dec q (map fst l).
+Proof.
+  intros q l. induction l as [|x l IH]; intros r Hnd H; [discriminate|].
+  cbn [drop_first] in H. cbn [map] in *. inversion Hnd as [|? ? Hnin Hnd']; subst.
+  destruct (Z.eqb_spec (fst x) q) as [E|NE].
+  - inversion H; subst r. split; [now left|]. cbn [remove].
+    destruct (Z.eq_dec q (fst x)) as [_|C]; [|congruence]. symmetry. apply notin_remove. now rewrite <- E.
+  - destruct (drop_first q l) as [r'|] eqn:Ed; [|discriminate]. inversion H; subst r.
+    destruct (IH r' Hnd' eq_refl) as [Hin Hr]. split; [now right|]. cbn [map remove].
+    destruct (Z.eq_dec q (fst x)) as [C|_]; [congruence|]. now rewrite Hr.
+Qed.
+
+Lemma drop_first_none : forall q l, drop_first q l = None -> ~ In q (map fst l).
+Proof.
+  intros q l. induction l as [|x l IH]; intros H; [intros []|]. cbn [drop_first] in H. cbn [map].
+  destruct (Z.eqb_spec (fst x) q) as [E|NE]; [discriminate|].
+  destruct (drop_first q l) eqn:Ed; [discriminate|]. intros [C|C]; [congruence | now apply IH].
+Qed.
+
+Lemma removelast_map : forall {A B} (f : A -> B) l, map f (removelast l) = removelast (map f l).
+Proof.
+  intros A B f l. induction l as [|x l IH]; [reflexivity|]. destruct l as [|y l]; [reflexivity|].
+  cbn [removelast map] in *. now rewrite IH.
+Qed.
+
+Theorem bh_neighbours_exact_fixed_thm : forall d N t q K,
+  metric_on (in_range N) d -> in_range N q -> (K + 1 <= N)%nat ->
+  vp_inv d t -> Permutation (items t) (samples N) ->
+  exists l, bh_row_fixed d t q K = Some l /\ is_knn d N q K l.
+Proof.
+  intros d N t q K Hm Hq HK Hinv Hperm.
+  assert (Hnd : NoDup (items t)).
+  { apply (Permutation_NoDup (Permutation_sym Hperm)). apply samples_NoDup. }
+  assert (Hdom : forall x, In x (items t) -> in_range N x).
+  { intros x Hx. apply samples_In. now apply (Permutation_in _ Hperm). }
+  assert (Hlen : length (items t) = N).
+  { rewrite (Permutation_length Hperm). unfold samples. apply zseq_length. }
+  destruct (vp_search_exact_thm d (in_range N) t q (K + 1) Hm Hq Hdom Hinv Hnd ltac:(lia))
+    as (l0 & Es & Hknn & Hasc).
+  rewrite Hlen, Nat.min_l in Hknn by lia.
+  assert (Hknn' : knn_of d q (samples N) (S K) l0).
+  { replace (S K) with (K + 1)%nat by lia. eapply knn_of_ext; [|exact Hknn].
+    intros x. split; intros Hx.
+    - now apply (Permutation_in _ Hperm).
+    - now apply (Permutation_in _ (Permutation_sym Hperm)). }
+  unfold vp_search in Es. destruct (vp_search_pairs d t q (K + 1)) as [lp|] eqn:Ep; [|discriminate].
+  cbn [option_map] in Es. inversion Es as [E1]. clear Es.
+  destruct Hknn' as (Hnd0 & Hlen0 & Hincl0 & Hle0).
+  unfold bh_row_fixed, bh_row_pairs_fixed. rewrite Ep. cbv zeta.
+  destruct (drop_first q lp) as [r|] eqn:Ed.
+  - (* the query is among the results: it is erased by index *)
+    destruct (drop_first_some q lp r ltac:(rewrite E1; exact Hnd0) Ed) as [Hqin Hr]. rewrite E1 in Hqin, Hr.
+    assert (Hlr : length r = K).
+    { transitivity (length (map fst r)); [symmetry; apply map_length|]. rewrite Hr.
+      pose proof (remove_length_NoDup l0 q Hnd0 Hqin). lia. }
+    rewrite Hlr, Nat.eqb_refl. cbn [option_map]. exists (map fst r). split; [reflexivity|].
+    rewrite Hr. apply is_knn_knn_of. rewrite others_remove. apply knn_of_remove; [|exact Hqin].
+    repeat split; assumption.
+  - (* K + 1 other samples are at least as near as the query itself (coincident samples):
+       the farthest result is dropped *)
+    pose proof (drop_first_none q lp Ed) as Hqn. rewrite E1 in Hqn.
+    assert (Hne : l0 <> []) by (intros E; rewrite E in Hlen0; discriminate).
+    pose proof (app_removelast_last 0 Hne) as Hsplit.
+    set (l := removelast l0) in *. set (z := last l0 0) in *.
+    assert (Hll : length l = K).
+    { pose proof (f_equal (@length Z) Hsplit) as HL. rewrite app_length in HL. cbn [length] in HL. lia. }
+    assert (Hlp : length (removelast lp) = K).
+    { transitivity (length (map fst (removelast lp))); [symmetry; apply map_length|].
+      rewrite removelast_map, E1. exact Hll. }
+    rewrite Hlp, Nat.eqb_refl. cbn [option_map]. exists (map fst (removelast lp)). split; [reflexivity|].
+    rewrite removelast_map, E1. fold l.
+    assert (Hinl : forall x, In x l -> In x l0) by (intros x Hx; rewrite Hsplit; apply in_or_app; now left).
+    assert (Hndl : NoDup l /\ ~ In z l).
+    { rewrite Hsplit in Hnd0. apply NoDup_remove in Hnd0. rewrite app_nil_r in Hnd0. exact Hnd0. }
+    assert (Hz : forall i, In i l -> d q i <= d q z).
+    { intros i Hi. unfold asc_from in Hasc. rewrite Hsplit in Hasc.
+      clear - Hasc Hi. induction l as [|a l IH]; [destruct Hi|]. cbn [app] in Hasc.
+      inversion Hasc as [|? ? Hs Hall]; subst. destruct Hi as [->|Hi].
+      - rewrite Forall_forall in Hall. apply Hall. apply in_or_app. right. now left.
+      - now apply IH. }
+    unfold is_knn. split; [apply Hndl|]. split; [exact Hll|]. split.
+    { intros Hin. apply Hqn. now apply Hinl. }
+    split.
+    { intros i Hi. apply samples_In. apply Hincl0. now apply Hinl. }
+    intros i j Hi Hnj Hjq Hj.
+    destruct (in_dec Z.eq_dec j l0) as [Hjl|Hjn].
+    + rewrite Hsplit in Hjl. apply in_app_or in Hjl. destruct Hjl as [C|[<-|[]]]; [contradiction|]. now apply Hz.
+    + apply Hle0; [now apply Hinl | now apply samples_In | exact Hjn].
+Qed.
+
 (* ---------- build establishes the invariant for every oracle meeting its contract ---- *)
 
 Lemma upd_length : forall j x l, length (upd j x l) = length l.
